@@ -510,9 +510,6 @@ class CallMixin:
                             s.frames[fid]["$parent"] = saved_parent
                     else:
                         s.frames[fid][gname] = self.sym(s, "free_" + gname, ghint)
-            # ghost outputs of the callee (existential witnesses): fresh at the call site
-            for gname, ghint in c.extra.get("ghosts", {}).items():
-                s.frames[fid][gname] = self.sym(s, "gh_" + gname, ghint)
             # ghost snapshots the *caller's* contract asks for at this call site (witnesses for its own ensures)
             if self.cur is not None:
                 for gname, gsrc in self.cur.extra.get("snapshots", {}).get("%s#%d" % (name, n), []):
@@ -547,6 +544,9 @@ class CallMixin:
             s.heap["$alloc"] = a1
             if c.modifies:
                 self.wf_assume(s)
+            # ghost outputs of the callee (existential witnesses): fresh symbols at the call site, possibly objects the callee allocated
+            for gname, ghint in c.extra.get("ghosts", {}).items():
+                s.frames[fid][gname] = self.sym(s, "gh_" + gname, ghint)
             outcomes = []
             # exceptional outcomes
             earlier_cls = []
@@ -592,6 +592,9 @@ class CallMixin:
                 s.trail.append("call:%s#%d:ok" % (name, n))
             if not c.raises or self.feasible(s):
                 outcomes.append(Res(s, result))
+            elif not c.extra.get("may_always_raise"):
+                # the callee's postconditions contradict what is known at this call site: nothing after the call would be checked
+                self.vacuous_paths.append("call %s#%d: the normal outcome is infeasible here" % (name, n))
             out.extend(outcomes)
         return out
 
